@@ -560,22 +560,22 @@ Definition read_command_cc (ls : lexstate) (no : Z) (s : list ch) (ln : Z) : res
     | [o] => Ok (Some (TCC no (oz o)), s2, ln2, ls')
     | _ => Unsupported U_UPPER
     end in
-  let arr (s0 : list ch) (k : list Z -> Z -> rd_out) : res rd_out :=
+  let arr (s0 : list ch) (mk : list Z -> option tok) (warn : option string) : res rd_out :=
     do r <- read_arg_int_array tb s0 ln; let '(ia, s2, ln2) := r in
-    let '(ot, _, _, ls') := k ia ln2 in Ok (ot, s2, ln2, ls') in
+    Ok (mk ia, s2, ln2, match warn with Some w => cc_warn ls ln2 w | None => ls end) in
   if eq_char s c_DOT then
     let '(cmd, s1) := get_word (tl s) in
-    if is_w cmd "onTime" "T" then arr s1 (fun ia _ => (Some (TCCOnTime no ia), [], 0, ls))
-    else if is_w cmd "onNote" "N" then arr s1 (fun ia _ => (Some (TCCOnNote no ia), [], 0, ls))
+    if is_w cmd "onTime" "T" then arr s1 (fun ia => Some (TCCOnTime no ia)) None
+    else if is_w cmd "onNote" "N" then arr s1 (fun ia => Some (TCCOnNote no ia)) None
     else if list_eqb cmd (zs "Frequency") then
       do r <- read_arg_value (arg_fuel s1) tb s1 ln; let '(v, s2, ln2) := r in
       Ok (Some (TCCFreq (aval_to_i v)), s2, ln2, ls)
-    else if is_w cmd "onNoteWave" "W" then arr s1 (fun ia _ => (Some (TCCOnNoteWave no ia), [], 0, ls))
-    else if is_w cmd "onNoteWaveEx" "WE" then arr s1 (fun _ ln2 => (None, [], 0, cc_warn ls ln2 "onNoteWaveEx"))
+    else if is_w cmd "onNoteWave" "W" then arr s1 (fun ia => Some (TCCOnNoteWave no ia)) None
+    else if is_w cmd "onNoteWaveEx" "WE" then arr s1 (fun _ => None) (Some "onNoteWaveEx"%string)
     else if is_w cmd "onNoteWaveR" "WR" then Unsupported U_DOTCMD      (* the warning prints the value with {:?} *)
-    else if is_w cmd "onCycle" "C" then arr s1 (fun _ ln2 => (None, [], 0, cc_warn ls ln2 "onCycle"))
-    else if list_eqb cmd (zs "Sine") then arr s1 (fun _ ln2 => (None, [], 0, cc_warn ls ln2 "Sine"))
-    else if list_eqb cmd (zs "onNoteSine") then arr s1 (fun _ ln2 => (None, [], 0, cc_warn ls ln2 "onNoteSine"))
+    else if is_w cmd "onCycle" "C" then arr s1 (fun _ => None) (Some "onCycle"%string)
+    else if list_eqb cmd (zs "Sine") then arr s1 (fun _ => None) (Some "Sine"%string)
+    else if list_eqb cmd (zs "onNoteSine") then arr s1 (fun _ => None) (Some "onNoteSine"%string)
     else plain s1
   else plain s.
 
